@@ -456,12 +456,11 @@ def rule_f(ctx: Ctx) -> None:
                 'prefix test sees has no `..` segments.')
 
 
-def rule_g(ctx: Ctx) -> None:
+def rule_g(ctx: Ctx, rule: str = 'C12.g') -> None:
     """The base URL of the referencing schema travels with every location down to the constructor of the child schema: a
     function on the fetch chain that owns a base URL (its own `base_url` parameter, or the referencing schema as a parameter)
     hands it to the next function of the chain.  Without it the child resource falls back to the settings' base URL or, under
     'sandbox', to the directory of the location itself - every location is then inside "its" sandbox."""
-    rule = 'C12.g'
     idx = ctx.idx
     loader = idx.cls('xmlschema.loaders.SchemaLoader')
     schema = idx.cls('xmlschema.validators.schemas.XMLSchemaBase')
@@ -472,9 +471,20 @@ def rule_g(ctx: Ctx) -> None:
         raise AnalysisError('missing anchor SchemaLoader.load_schema(…, base_url, …)')
     sc = [c for c in calls(ls.node) if text(c.func) == 'self.schema_class']
     kw = [get_arg(c, None, 'base_url') for c in sc]
-    ok = bool(sc) and all(k is not None and 'base_url' in [n.id for n in ast.walk(k) if isinstance(n, ast.Name)] for k in kw)
+
+    def own_first(k):
+        # `base_url`, or `base_url or <fallback>`: the base of the referencing document wins over any configured default
+        if isinstance(k, ast.Name):
+            return k.id == 'base_url'
+        if isinstance(k, ast.BoolOp) and isinstance(k.op, ast.Or):
+            return isinstance(k.values[0], ast.Name) and k.values[0].id == 'base_url'
+        if isinstance(k, ast.IfExp):
+            return isinstance(k.body, ast.Name) and k.body.id == 'base_url' and 'base_url' in text(k.test)
+        return False
+    ok = bool(sc) and all(k is not None and own_first(k) for k in kw)
     ctx.ob(rule, 'SchemaLoader.load_schema builds the child schema with the base URL it was given', ls.loc(sc[0]) if sc else ls.loc(), ok,
-           '' if ok else 'schema_class(…) is not given base_url: the child resource resolves and confines itself against its own location',
+           '' if ok else f'schema_class(…) gets base_url={text(kw[0]) if kw and kw[0] is not None else None}: the base of the referencing document must come '
+           'first - otherwise a configured base_url (or none) decides where relative schemaLocations of nested includes resolve and what the sandbox is',
            key='load_schema|schema_class|base_url')
     chain['load_schema'] = [ls]
     changed = True
@@ -535,7 +545,7 @@ def rule_g(ctx: Ctx) -> None:
                    '(settings.base_url, else the directory of the location itself): with allow=\'sandbox\' an import of any local path is "inside" '
                    'its own sandbox', key=f'{f.qualname}|forward|{c.func.attr}')
     ctx.floor(rule, 'base_url forwarding call sites on the fetch chain', n, 7)
-    ctx.explain('C12.g: fixed point of the methods of SchemaLoader/XMLSchemaBase that take base_url and reach '
+    ctx.explain(f'{rule}: fixed point of the methods of SchemaLoader/XMLSchemaBase that take base_url and reach '
                 'schema_class(base_url=…); every call of a chain member from a function owning a base URL must forward it.')
 
 
